@@ -59,7 +59,10 @@ theorem step_other {a b : RSys} (h : D a b) (op : Op) (hop : op ≠ .iter) :
     simp only [step]
     cases ta[i]? with
     | none => exact ⟨rfl, ⟨rfl, rfl, rfl, rfl, h5, h6⟩⟩
-    | some t => exact ⟨rfl, ⟨rfl, rfl, rfl, rfl, h5, Or.inr (Or.inr (by simp))⟩⟩
+    | some t =>
+      cases ra with
+      | false => exact ⟨rfl, ⟨rfl, rfl, rfl, rfl, h5, Or.inr (Or.inr (by simp [load]))⟩⟩
+      | true => exact ⟨rfl, ⟨rfl, rfl, rfl, rfl, trivial, Or.inr (Or.inr (by simp [load]))⟩⟩
   | abandon => exact ⟨rfl, ⟨rfl, rfl, rfl, rfl, h5, h6⟩⟩
   | fresh => exact ⟨rfl, ⟨rfl, rfl, rfl, rfl, trivial, Or.inl rfl⟩⟩
 
